@@ -23,13 +23,34 @@ type SrvReqOps interface {
 
 // Respond to the request with Rerror message
 func (req *SrvReq) RespondError(err interface{}) {
+	var ename string
+	ecode := uint32(EIO)
 	switch e := err.(type) {
 	case *Error:
-		_ = PackRerror(req.Rc, e.Error(), uint32(e.Errornum), req.Conn.Dotu)
+		ename, ecode = e.Error(), uint32(e.Errornum)
 	case error:
-		_ = PackRerror(req.Rc, e.Error(), uint32(EIO), req.Conn.Dotu)
+		ename = e.Error()
 	default:
-		_ = PackRerror(req.Rc, fmt.Sprintf("%v", e), uint32(EIO), req.Conn.Dotu)
+		ename = fmt.Sprintf("%v", e)
+	}
+
+	dotu := req.Conn.Dotu
+	if PackRerror(req.Rc, ename, ecode, dotu) != nil {
+		// the text does not fit the negotiated msize: send what fits
+		room := len(req.Rc.Buf) - (4 + 1 + 2 + 2) /* size[4] id[1] tag[2] ename[s] */
+		if dotu {
+			room -= 4 /* ecode[4] */
+		}
+		if *Akaros {
+			room -= 5 /* the "%04X " prefix PackRerror adds */
+		}
+		if room < 0 {
+			room = 0
+		}
+		if room < len(ename) {
+			ename = ename[:room]
+		}
+		_ = PackRerror(req.Rc, ename, ecode, dotu)
 	}
 
 	req.Respond()
